@@ -286,6 +286,8 @@ func (b *builder) make(s *Sch) core.ZodSchema {
 		return asSchema(applyCks(types.Record(build(s.Key), build(s.Elem)), s.Cks, false))
 	case "map":
 		return asSchema(applyCks(gozod.Map(build(s.Key), build(s.Elem)), s.Cks, false))
+	case "recv":
+		return buildRec(s.Kind, build(s.Elem))
 	case "union", "xor":
 		opts := make([]any, len(s.Items))
 		for i, it := range s.Items {
@@ -299,6 +301,21 @@ func (b *builder) make(s *Sch) core.ZodSchema {
 		return types.Intersection(build(s.Items[0]), build(s.Items[1]))
 	}
 	panic("build: " + s.K)
+}
+
+// buildRec: V = Union([leaf, Slice(LazyAny(→ V))]) at the root, as the field "val" of a strict object, or as the element
+// of a slice — a recursive schema whose Lazy cycle closes at V, which is the root only for wrap == "root".
+func buildRec(wrap string, leaf core.ZodSchema) core.ZodSchema {
+	var v core.ZodSchema
+	lz := types.LazyAny(func() any { return v })
+	v = types.Union([]any{leaf, gozod.Slice[any](lz)})
+	switch wrap {
+	case "root":
+		return v
+	case "field":
+		return gozod.StrictObject(core.ObjectSchema{"val": v})
+	}
+	return gozod.Slice[any](v)
 }
 
 // Schema-directed embedding.  A position of the instance is governed by a SET of candidate
